@@ -29,3 +29,38 @@ Lemma pin_tables_compile :
   (if eject_compiled then true else false) && (if grammar_compiled then true else false) &&
   (if cli_validate_compiled then true else false) && (if cli_write_compiled then true else false) = true.
 Proof. vm_compute. reflexivity. Qed.
+
+(* ---- schema resolution is re-checked on every call, never remembered ----
+   The decision table of core/hydrator.py resolve_hermetic_standard (route of schema="latest" / "frozen@sha256:<H>" in
+   octave_write): the returned path is the cache slot only when the digest COMPUTED FROM THE FILE in this call equals H ... *)
+Definition hermetic_rows_expected : list (list str * str) :=
+    [([s2l "standard_ref == 'latest'"; s2l "not default_path.exists()"], s2l "raise VocabularyError");
+     ([s2l "standard_ref == 'latest'"], s2l "return default_path");
+     ([s2l "standard_ref.startswith('frozen@sha256:')"; s2l "m is None"], s2l "raise VocabularyError");
+     ([s2l "standard_ref.startswith('frozen@sha256:')"; s2l "not cached_path.exists()"], s2l "raise VocabularyError");
+     ([s2l "standard_ref.startswith('frozen@sha256:')"; s2l "actual_hash != expected_hash"], s2l "raise VocabularyError");
+     ([s2l "standard_ref.startswith('frozen@sha256:')"], s2l "return cached_path");
+     ([], s2l "raise VocabularyError")].
+Lemma pin_hermetic_rows : status_hermetic_rows = hermetic_rows_expected.
+Proof. reflexivity. Qed.
+(* ... with every local defined from the arguments and the file system in this call, and no other effect *)
+Definition hermetic_defs_expected : list (list str * str) :=
+    [([s2l "cache_dir is None"], s2l "cache_dir = Path.home() / '.octave' / 'standards'");
+     ([s2l "standard_ref == 'latest'"], s2l "default_path = cache_dir / 'default.oct.md'");
+     ([s2l "standard_ref.startswith('frozen@sha256:')"], s2l "m = re.fullmatch('frozen@sha256:([0-9a-fA-F]{64})', standard_ref)");
+     ([s2l "standard_ref.startswith('frozen@sha256:')"], s2l "digest = m.group(1).lower()");
+     ([s2l "standard_ref.startswith('frozen@sha256:')"], s2l "expected_hash = f'sha256:{digest}'");
+     ([s2l "standard_ref.startswith('frozen@sha256:')"], s2l "cached_path = cache_dir / f'{digest[:16]}.oct.md'");
+     ([s2l "standard_ref.startswith('frozen@sha256:')"], s2l "actual_hash = compute_vocabulary_hash(cached_path)")].
+Lemma pin_hermetic_defs : status_hermetic_defs = hermetic_defs_expected.
+Proof. reflexivity. Qed.
+(* no resolver is decorated (memoised) and none mentions module-level state other than the name pattern / the builtin dict *)
+Definition resolver_state_expected : list (str * list str * list str) :=
+    [(s2l "hydrator.resolve_hermetic_standard", @nil str, @nil str);
+     (s2l "hydrator.compute_vocabulary_hash", @nil str, @nil str);
+     (s2l "loader.load_schema", @nil str, @nil str);
+     (s2l "loader.load_schema_by_name", @nil str, [s2l "SCHEMA_NAME_PATTERN"]);
+     (s2l "loader.get_schema_search_paths", @nil str, @nil str);
+     (s2l "loader.get_builtin_schema", @nil str, [s2l "BUILTIN_SCHEMA_DEFINITIONS"])].
+Lemma pin_resolver_state : status_resolver_state = resolver_state_expected.
+Proof. reflexivity. Qed.
